@@ -7,8 +7,10 @@ from xml.sax.saxutils import escape, quoteattr
 from lxml import etree
 import impl
 from metapype.model.normalize import normalize
+from metapype.model import normalize as normmod
 
-TRUSTED = ["libxslt / libxml2 (XSLT execution, indent=yes serialisation, parsing) are not modelled: the XML half is decided by the differential oracle only",
+TRUSTED = ["libxslt / libxml2 are not modelled: the Lean model gives the XSLT 1.0 meaning of the stylesheet on the node tree and is compared with libxslt's RESULT TREE for the stylesheet text found in the source; "
+           "the indent=yes serialisation and the re-parse of the function's actual output are judged by the differential oracle only",
            "Python's str.isspace set is the one listed in Model/Normalize.lean"]
 WS = [" ", " ", "  ", "\t", "\n", "\r", "\xa0", "\xa0\xa0", " \xa0", "\x0b", "\x0c", "\x1c", "\x85", " ", "　", "​"]
 WORDS = ["a", "bc", "Hello", "wörld", "x.y", "<tag>", "&amp;", "\U0001F600", "1", "-"]
@@ -73,6 +75,26 @@ def gen_elem(rng, depth, prot=False):
     for k, c in zip(kids, chunks[1:]):
         s += k + escape(c.replace("\x0b", "").replace("\x0c", "").replace("\x1c", ""))
     return s + f"</{name}>"
+
+
+def xd_of(e):
+    """lxml element -> the node tree of Model/XNorm.lean (adjacent text is already merged by the parser)"""
+    if not isinstance(e.tag, str):
+        return ["o", etree.tostring(e, with_tail=False).decode()]
+    kids = []
+    if e.text:
+        kids.append(["t", e.text])
+    for c in e:
+        kids.append(xd_of(c))
+        if c.tail:
+            kids.append(["t", c.tail])
+    return ["e", e.tag, [[k, v] for k, v in e.attrib.items()], kids]
+
+
+def result_tree(doc):
+    """libxslt's result tree (before serialisation) for the stylesheet the source holds now"""
+    xslt = etree.XSLT(etree.XML(normmod.normalize_whitespace))
+    return xd_of(xslt(etree.XML(doc.replace("\xa0", " ").encode("utf-8"))).getroot())
 
 
 def chunks_of(e):
@@ -150,10 +172,38 @@ def run(ctx):
     xdocs = []
     for _ in range(nx):
         d = gen_elem(rng, 0)
+        # a well-formed document may start with an XML declaration (with or without an encoding) and a comment
+        d = rng.choice(["", "", "", '<?xml version="1.0"?>', '<?xml version="1.0" encoding="UTF-8"?>\n', "<?xml version='1.0' encoding='utf-8' standalone='yes'?>",
+                        "<!-- header -->\n"]) + d
         xdocs.append(d)
         w = judge_xml(d)
         if w:
             fails.append({"case": {"xml": d}, "what": w})
+    # the Lean model of the stylesheet (Model/XNorm.lean, protected list regenerated from the source) against libxslt's result tree
+    if ctx.driver:
+        reqs, exps = [], []
+        for d in xdocs:
+            try:
+                exps.append(result_tree(d))
+                reqs.append({"op": "xnorm", "doc": xd_of(etree.fromstring(d.encode("utf-8")))})
+            except Exception as e:
+                exps.append(None); reqs.append({"op": "xnorm", "doc": ["o", "unparsable"]})
+        # a second stream with comments and processing instructions inside (copied verbatim by the identity template): model only
+        cdocs = []
+        for _ in range(nx // 4):
+            d = gen_elem(rng, 0)
+            for _ in range(rng.randint(1, 3)):
+                cut = [i for i, ch in enumerate(d) if ch == "<" and i > 0 and d[i + 1] != "/"]
+                if cut:
+                    i = rng.choice(cut)
+                    d = d[:i] + rng.choice(["<!-- a  comment -->", "<?pi  some   data?>", "<!----> "]) + d[i:]
+            try:
+                exps.append(result_tree(d)); reqs.append({"op": "xnorm", "doc": xd_of(etree.fromstring(d.encode("utf-8")))}); cdocs.append(d)
+            except Exception:
+                pass
+        for d, e, m in zip(xdocs + cdocs, exps, ctx.driver.batch(reqs)):
+            if e is not None and e != m:
+                diffs.append({"case": {"xml": d}, "impl": str(e)[:400], "model": str(m)[:400]})
     for s in texts[14:17]:
         samples.append({"text": s, "normalized": normalize(s)})
     samples.append({"xml": xdocs[0][:400]})
@@ -175,7 +225,14 @@ def replay(payload, drv):
             out["model"] = drv.batch([{"op": "normalize", "s": c["text"]}])[0]
         return out
     if "xml" in c:
-        return {"verdict": judge_xml(c["xml"])}
+        out = {"verdict": judge_xml(c["xml"])}
+        if drv:
+            try:
+                out["libxslt_result_tree"] = result_tree(c["xml"])
+                out["model"] = drv.batch([{"op": "xnorm", "doc": xd_of(etree.fromstring(c["xml"].encode("utf-8")))}])[0]
+            except Exception as e:
+                out["model"] = f"{type(e).__name__}: {e}"
+        return out
     return {"case": c}
 
 
